@@ -29,6 +29,7 @@ def slots():
     sl.append(("expire", 0, list(range(1, N_READS + 1))))
     sl.append(("start", 0, list(range(1, 9))))
     sl.append(("lamb", 0, [0, 1]))
+    sl.append(("lmin", 0, [0, 1]))
     return sl
 
 
@@ -62,6 +63,8 @@ def materialize(desc):
             case["start"] = [n for n in E.names if n != "BAD"][c]
         elif kind == "lamb":
             case["lamb_init"] = [16.0, 0.25][c]
+        elif kind == "lmin":
+            case["lamb_min"] = [0.75, 4.0][c]
     case["ctl"] = [list(a) for a in ctl]
     case["pen"] = pen
     return case
